@@ -5,7 +5,8 @@
    placement of two simulators in a group tree x all flag combinations. *)
 From Coq Require Import ZArith List Bool Arith.
 Import ListNotations.
-From MV Require Import Time.Spec Time.Tie Static.Groups Static.GroupsP Static.Connect Static.ConnectP Static.ConnTie.
+From MV Require Import Time.Spec Time.Tie Static.Groups Static.GroupsP Static.Connect Static.ConnectP Static.ConnTie Static.GenConn Static.ConnOneTie.
+From MV Require Gen.ConnectOne.
 
 (* connect_one raises ScenarioError exactly in the four documented cases; it never fails in any other way *)
 Theorem C11_rejection_exact : forall gt, wfGb gt = true -> forall sg dg f, (sg < length gt)%nat -> (dg < length gt)%nat ->
@@ -72,3 +73,13 @@ Theorem C11_generated_connect_interval_is_the_model : forall gt sg dg ts w,
   cmap to_spec (MV.Gen.ConnectInterval.connect_interval gt sg dg ts w) = MV.Static.Groups.connect_interval gt sg dg ts w.
 Proof. exact tie_connect_interval. Qed.
 Print Assumptions C11_generated_connect_interval_is_the_model.
+
+(* tie to the source: World.connect_one as regenerated from mosaik/scenario.py on every run (Gen/ConnectOne.v: its statements in
+   source order, every table update an effect, every exception with the updates made before it) is the model connect_one
+   with NOTHING done before a rejection or a crash: the objections are collected and raised before any table is touched, the
+   group rule for weak connections is checked (inside connect_interval) before the first update, and the second
+   connect_interval call cannot fail when the first succeeded *)
+Theorem C11_generated_connect_one_is_the_model : forall gt sg dg f,
+  MV.Gen.ConnectOne.connect_one gt sg dg f = embed (MV.Static.Connect.connect_one gt sg dg f).
+Proof. exact tie_connect_one. Qed.
+Print Assumptions C11_generated_connect_one_is_the_model.
